@@ -3,10 +3,11 @@ executions of the real frontend/backend recorded by harness/h_sys; scenario fami
 exploration in spec/Quill.tla (pipeline with logger removal) and spec/Registry.tla (logger and sink registries, object
 lifetimes, create/get/remove by name; tools/regmodel.py)."""
 import os
-import sysfam, qsys, regmodel
+import sysfam, qsys, regmodel, lockmodel
 
 
 def run(ck):
+    lockmodel.run_for(ck)          # the registry lock under release/acquire (spec/SpinlockRA.tla, harness/h_lock)
     regmodel.run_for(ck)
     if os.environ.get("VERIF_PART") == "model":      # analysis aid: the design-level part alone
         return
@@ -21,4 +22,8 @@ def run(ck):
 
 
 def replay(ck, path):
-    qsys.replay(path)
+    import json
+    if json.loads(open(path).read())["replay"].get("harness") == "h_lock":
+        lockmodel.replay(path)
+    else:
+        qsys.replay(path)
